@@ -2,8 +2,8 @@
 namespace BiotiteModel.Gen.C17
 /-- annotations whose change masks are OR-ed in `get_residue_starts`. -/
 def residueFields : List String := ["chain_id", "res_id", "ins_code", "res_name"]
-/-- operands of the mask union in `get_chain_starts` (`diff:<annotation>:<op>:<bound>` for the np.diff test). -/
-def chainTerms : List String := ["diff:res_id:Lt:0", "chain_id"]
+/-- operands of the mask union in `get_chain_starts` (`decrease:<annotation>` for `X[1:] < X[:-1]`, `diff:<annotation>:<op>:<bound>` for a test on np.diff). -/
+def chainTerms : List String := ["decrease:res_id", "chain_id"]
 /-- (without, with exclusive stop) returned for an empty array by get_residue_starts / get_chain_starts. -/
 def emptyReturns : List (List Nat × List Nat) := [([], [0]), ([], [0])]
 /-- (function, side of np.searchsorted, subtracted constant). -/
